@@ -194,25 +194,37 @@ theorem outcomeOf_normalSend (env : Env) (w : Bytes) (c : Bool) : outcomeOf env 
 
 theorem process_shutdown (srv : Server) (env : Env) (data : Bytes) (h : env.shutdownAtEntry = true) :
     process srv env data =
-      if env.transportAtEntry then (if env.enqueueOk then .respond shutdownWire true else .sendFailed true) else .nothing := by
+      if env.transportAtEntry then
+        (if env.enqueueOk then .respond shutdownWire env.transportAtShutdownClose else .sendFailed env.transportAtShutdownClose)
+      else .nothing := by
   simp only [process, processCalls, h, if_true]
-  cases ht : env.transportAtEntry <;> cases he : env.enqueueOk <;> simp [outcomeOf, he]
+  cases ht : env.transportAtEntry <;> cases he : env.enqueueOk <;> cases hc : env.transportAtShutdownClose <;> simp [outcomeOf, he]
 
 theorem process_error (srv : Server) (env : Env) (data : Bytes) (e : ParseErr)
     (h : env.shutdownAtEntry = false) (hp : fromWireFormat data = .error e) :
     process srv env data = errorOutcome env (errStatus e) := by
   cases e <;> simp [process, processCalls, h, hp, errStatus, outcomeOf_errorArm]
 
+/-- does the buffer drain of the upgrade arm end in a Close?  (bytes buffered, `onUpgradedData` threw, transport still up) -/
+def drainCloses (srv : Server) (env : Env) : Bool :=
+  env.bufferedAtUpgrade && (match srv.drainHook with | .threw _ => true | .ret _ => false) && env.upAtClose
+
+theorem drainGuarded_eq : Gen.HttpRespond.upgradeDrainGuarded = true := by decide
+
+theorem drainCalls_eq (srv : Server) (env : Env) : drainCalls srv env = if drainCloses srv env then [.close] else [] := by
+  unfold drainCalls drainCloses
+  cases env.bufferedAtUpgrade <;> cases srv.drainHook <;> cases env.upAtClose <;> simp [drainGuarded_eq]
+
 theorem process_upgrade (srv : Server) (env : Env) (data : Bytes) (p : ParsedReq) (u : Resp)
     (h : env.shutdownAtEntry = false) (hp : fromWireFormat data = .ok p) (hu : upgradeSeam srv p = .ret (some u)) :
     process srv env data =
-      if !env.upAtSend then .nothing
-      else if !env.enqueueOk then .sendFailed false
+      if !env.upAtSend then (if drainCloses srv env then .sendFailed true else .nothing)
+      else if !env.enqueueOk then .sendFailed (drainCloses srv env)
       else .respond (toWire u.status (statusText u.status)
-             (hSet u.headers (ascii "Server") (ascii Gen.HttpRespond.serverHeader)) u.body) false := by
+             (hSet u.headers (ascii "Server") (ascii Gen.HttpRespond.serverHeader)) u.body) (drainCloses srv env) := by
   unfold upgradeSeam at hu
-  simp only [process, processCalls, h, hp, hu]
-  cases ht : env.upAtSend <;> cases he : env.enqueueOk <;> simp [outcomeOf, he]
+  simp only [process, processCalls, h, hp, hu, drainCalls_eq]
+  cases ht : env.upAtSend <;> cases he : env.enqueueOk <;> cases hd : drainCloses srv env <;> simp [outcomeOf, he]
 
 /-- a seam that throws: a `std::exception` always, anything else since the arm is `catch (...)`, ends in the error arm's 500 -/
 theorem process_upgrade_threw (srv : Server) (env : Env) (data : Bytes) (p : ParsedReq) (std : Bool)
@@ -398,8 +410,8 @@ theorem process_up_cases (srv : Server) (env : Env) (data : Bytes)
 
 /-! ### the calls of one `processHttpRequest`: shape from the control flow -/
 
-/-- at most one `sendAsync`, and a `close` only directly after it -/
-def CallsShaped (l : List Call) : Prop := l = [] ∨ ∃ w, l = [.sendAsync w] ∨ l = [.sendAsync w, .close]
+/-- at most one `sendAsync`, at most one `close`, and never a `sendAsync` after a `close` -/
+def CallsShaped (l : List Call) : Prop := l = [] ∨ l = [.close] ∨ ∃ w, l = [.sendAsync w] ∨ l = [.sendAsync w, .close]
 
 theorem errorArm_shaped (env : Env) (st : Nat) : CallsShaped (errorArm env st) := by
   unfold errorArm CallsShaped
@@ -420,13 +432,14 @@ theorem normalSend_shaped (env : Env) (w : Bytes) (c : Bool) : CallsShaped (norm
 theorem processCalls_shape (srv : Server) (env : Env) (data : Bytes) : CallsShaped (processCalls srv env data).1 := by
   unfold processCalls
   split
-  · split <;> simp [CallsShaped]
+  · split <;> (try split) <;> simp [CallsShaped]
   · split
     · exact errorArm_shaped _ _
     · simp only
       split
       · exact seamThrew_shaped _ _
-      · split <;> simp [CallsShaped]
+      · rw [drainCalls_eq]
+        split <;> split <;> simp [CallsShaped]
       · generalize dispatch _ _ = dr
         obtain ⟨res, ran⟩ := dr
         simp only
@@ -447,13 +460,29 @@ theorem process_cmds (srv : Server) (env : Env) (data : Bytes) :
     (process srv env data).cmds = engineCmds env (processCalls srv env data).1 := by
   have hsh := processCalls_shape srv env data
   unfold process outcomeOf
-  rcases hsh with h | ⟨w, h | h⟩
+  rcases hsh with h | h | ⟨w, h | h⟩
   · rw [h]; cases (processCalls srv env data).2 <;> simp [Outcome.cmds, engineCmds]
+  · rw [h]; simp [Outcome.cmds, engineCmds]
   · rw [h]; cases he : env.enqueueOk <;> simp [Outcome.cmds, engineCmds, he]
   · rw [h]; cases he : env.enqueueOk <;> simp [Outcome.cmds, engineCmds, he]
 
 theorem engineCmds_count (env : Env) (l : List Call) (h : CallsShaped l) : countSends (engineCmds env l) ≤ 1 := by
-  rcases h with h | ⟨w, h | h⟩ <;> subst h <;> cases he : env.enqueueOk <;> simp [engineCmds, countSends, he]
+  rcases h with h | h | ⟨w, h | h⟩ <;> subst h <;> cases he : env.enqueueOk <;> simp [engineCmds, countSends, he]
+
+/-- pool overflow, every environment: nothing while the transport is down, otherwise the 503 and the Close — and the Close
+    also when the engine refused the Send, so an overflowing request never leaves its connection open and unanswered -/
+theorem overflowCalls_cmds (env : Env) :
+    engineCmds env (overflowCalls env) =
+      if !env.upAtSend then [] else if env.enqueueOk then [.send overflowWire, .close] else [.close] := by
+  unfold overflowCalls
+  cases env.upAtSend <;> cases he : env.enqueueOk <;> simp [engineCmds, he]
+
+theorem overflowCalls_shaped (env : Env) : CallsShaped (overflowCalls env) := by
+  unfold overflowCalls CallsShaped
+  cases env.upAtSend <;> simp
+
+theorem overflowCalls_up : engineCmds Env.up (overflowCalls Env.up) = overflowCmds := by
+  simp [overflowCalls_cmds, Env.up, overflowCmds]
 
 theorem process_ok_false (srv : Server) (env : Env) (data : Bytes) (p : ParsedReq)
     (h : env.shutdownAtEntry = false) (hp : fromWireFormat data = .ok p) (hu : upgradeSeam srv p = .ret none)
@@ -628,7 +657,9 @@ theorem parseHeaderLines_status (ls : List Bytes) (h0 : Headers) (n : Nat) (s : 
       · cases h; decide
       · split at h
         · exact ih _ _ h
-        · exact ih _ _ h
+        · split at h
+          · cases h; decide
+          · exact ih _ _ h
 
 /-- the statuses `fromWireFormat` can throw as `HttpRequestError` are exactly 400, 414, 501, 505 -/
 theorem fromWireFormat_status (data : Bytes) (s : Nat) (h : fromWireFormat data = .error (.request s)) :
